@@ -220,8 +220,10 @@ INDENTS = [0, 2, 4, 8]
 
 
 def bound(tier):
-  return 'pool of %d bindings (%d targets, %d value kinds); subsets size<=%d; all permutations; %d width x indent pairs' % (
-      len(POOL), len(TARGETS), len(VALUES), 2 if tier == 'quick' else 3, 7 * len(INDENTS))
+  return ('pool of %d bindings (%d targets, %d value kinds); all subsets of size<=2, triples and (every %s) quadruples over a '
+          'selection of %d bindings on colliding / related targets; all permutations; %d width x indent pairs' % (
+              len(POOL), len(TARGETS), len(VALUES), '7th' if tier == 'quick' else '3rd', 19 if tier == 'quick' else 34,
+              7 * len(INDENTS)))
 
 
 def value_obj(kind):
@@ -568,21 +570,23 @@ def run_late(case, res):
 def gen(tier):
   for first in LATE_FIRST:
     yield ['late', first]
-  k = 2 if tier == 'quick' else 3
   n = len(POOL)
-  for size in range(1, k + 1):
+  for size in (1, 2):
     for c in itertools.combinations(range(n), size):
       if len({POOL[i][0] for i in c}) != size:
         continue
       yield ['cfg', list(c)]
-  if tier == 'quick':
-    # triples / quadruples over a reduced value set on colliding / related targets
-    sel = [i for i, (t, kd) in enumerate(POOL) if kd in ('int', 'obj') and t != T0][:16] + [
-        i for i, (t, kd) in enumerate(POOL) if t == T0 and kd in ('nested_wide', 'ref_eval_scoped', 'obj')]
-    for size in (3, 4):
-      for c in itertools.combinations(sel, size):
-        if len({POOL[i][0] for i in c}) == size and (size == 3 or sum(c) % 7 == 0):
-          yield ['cfg', list(c)]
+  # triples / quadruples over a reduced value set on colliding / related targets (thorough: a wider selection, every
+  # quadruple of it; the full product of all triples over the whole pool -- 4*10^5 configurations x 6 orders x 28 widths --
+  # does not finish in any useful time)
+  quick = tier == 'quick'
+  sel = [i for i, (t, kd) in enumerate(POOL) if kd in ('int', 'obj') and t != T0][:16 if quick else 28] + [
+      i for i, (t, kd) in enumerate(POOL) if t == T0 and kd in (('nested_wide', 'ref_eval_scoped', 'obj') if quick else
+                                                                ('nested_wide', 'ref_eval_scoped', 'obj', 'macro', 'str_quotes', 'none'))]
+  for size in (3, 4):
+    for c in itertools.combinations(sel, size):
+      if len({POOL[i][0] for i in c}) == size and (size == 3 or sum(c) % (7 if quick else 3) == 0):
+        yield ['cfg', list(c)]
   for name in DYN:
     for ci in INDENTS:
       for mll in WIDTHS(ci):
